@@ -562,7 +562,7 @@ TRANSLATED = {
             "filter_constructors_as_documented)"],
     "C02": ["tr_important.py -> Gen/GenImportant.v (prefer_important, is_marked_important, remove_important)",
             "tr_settings.py -> Gen/GenSettings.v (ExpRunDetails.compile / default / resolve_override_and_important over the records of Model/Settings.v)"],
-    "C03": ["tr_facts.py -> Gen/GenFactsBuild.v (execute_run_steps, plan_branch)",
+    "C03": ["tr_facts.py -> Gen/GenFactsBuild.v (execute_run_steps, plan_branch)", "tr_par.py -> Gen/GenPar.v (plan_is_sequential)",
             "tr_facts.py -> Gen/GenFactsLaunch.v (launch_passes_cmdline_env_cwd, popen_gets_what_run_got, run_env_is_expanded_configured_env)"],
     "C04": ["tr_termination.py -> Gen/GenTermination.v (TerminationCheck)",
             "tr_classify.py -> Gen/GenClassify.v (rc_classify and the shape of the branches of _generate_data_point / _eval_output)"],
